@@ -25,7 +25,9 @@ PROBES = ["stale_report_replaced", "mkdir_p_output", "single_entry_schedule", "a
           "midyear_from", "large_table", "skewed_large_world", "expense_fractions_over_120", "neg_balances_allowed", "equal_instants_in_world", "tie_transfer_funds_disposal", "tie_buy_and_sell"]
 
 
-def make_case(seed, facts, index=0):
+def make_case(seed, facts, index=0, weights=None):
+    """weights: optional {swarm flag: probability} overriding the default swarm probabilities (used by C17, whose relations are most
+    sensitive to cross-asset and ranking shapes); the draw order is unaffected."""
     rng = random.Random(seed)
     swarm = {
         "optional_cols": rng.random() < 0.5,
@@ -42,7 +44,11 @@ def make_case(seed, facts, index=0):
         "window": rng.random() < 0.85,
         "ties": rng.random() < 0.15,
         "few_prices": rng.random() < 0.3,
+        "confusable": rng.random() < 0.12,
+        "shared_instants": rng.random() < 0.25,
     }
+    for flag, prob in sorted((weights or {}).items()):
+        swarm[flag] = rng.random() < prob
     if rng.random() < 0.04:
         swarm["n_rows"] = rng.choice([60, 120, 200])
         swarm["n_assets"] = 1
